@@ -382,6 +382,19 @@ def eval_case(rep, case, impl, model, dom, tok_ans=None):
 COSTS = dict(D=2, I=2, P=1)
 
 
+def load_costs():
+    """The cost constants as the translator read them from src/align.rs on this run (the oracle
+    states 'cost of the read-back script = stored cost = minimum' for the *current* constants)."""
+    import os
+    from ..core import LEAN
+    try:
+        src = open(os.path.join(LEAN, "DeltaModel", "Generated", "AlignCosts.lean")).read()
+        for key, name in (("D", "deletionCost"), ("I", "insertionCost"), ("P", "initialMismatchPenalty")):
+            COSTS[key] = int(re.search(r"def %s : Nat := (\d+)" % name, src).group(1))
+    except (OSError, AttributeError):
+        pass
+
+
 def script_cost(ops):
     c, prev = 0, "N"
     for o in ops:
@@ -548,6 +561,8 @@ def run(ctx, rep):
         "(edits.domain); cases violating the DESIGN 3.1 domain conditions go to the oracle only",
         "f64 comparison `distance <= max` modelled on rationals (DESIGN 3.3); distances compared as IEEE bit patterns",
     ]
+    load_costs()
+    rep.notes["cost_constants"] = dict(COSTS)
     cases = gen_cases(ctx)
     rep.exhaustive = dict(strings="len<=%d" % ctx.n(3, 4), token_sequences="len<=%d" % ctx.n(3, 4))
     run_cases(ctx, rep, cases)
